@@ -56,6 +56,13 @@ def run(check, prog):
     from . import c01
     c01.f6_copy_metadata(check, prog)
     constructors(check, prog)
+    # a pixel's value must not depend on which other pixels are computed in the
+    # same call: the interpolation windows of the radial integrals sit on a fixed
+    # grid (rule shared with C08)
+    from . import c08, c13
+    c08.interpolation_windows(check, prog)
+    # the seed given to a strategy reaches the subset draw (rule shared with C13)
+    c13.wiring(check, prog)
 
 
 def purity(check, prog):
